@@ -103,6 +103,18 @@ def delay(kind, key, sched):
         frac = 1.0 - pos
     elif mode == "rotate":
         frac = (pos + float(sched.get("k", 0.5))) % 1.0
+    elif mode == "head":  # only the first head_n submitted tasks are slow: the consumer receives later results first
+        n = int(sched.get("head_n", 5))
+        r = (sched.get("ranks") or {}).get(kind)
+        idx = None
+        try:
+            if isinstance(r, dict) and key in r:
+                idx = r[key]
+            elif isinstance(r, list) and r[0] == "lin":
+                idx = (float.fromhex(key) if kind == "ext" else float(key.split("@")[0])) - float(r[1])
+        except Exception:
+            idx = None
+        frac = 1.0 if idx is not None and 0 <= idx < n else 0.0
     elif mode == "alternate":  # even submission ranks fast, odd ones slow (interleaves the two halves)
         r = (sched.get("ranks") or {}).get(kind)
         odd = (r[key] % 2) if isinstance(r, dict) and key in r else (_u(1, kind, key) < 0.5)
